@@ -66,6 +66,9 @@ class Ctx(object):
         E.loop_info = {}
         E.keep_iter_states = True
         E.force_summary = True
+        # (the inductive summary is wanted for the table scans of the API and the tick; small fixed loops of helpers - an
+        #  address compare or copy, in whatever form - are simply unrolled)
+        E.force_summary_fns = set(API) | {'automata_tick'}
         E.no_merge = no_merge      # small functions whose rules read per-path knowledge (what was compared) off the states
         calls = []
 
